@@ -194,7 +194,8 @@ Proof.
   { intros C. assert (existsb (N.eqb k) stack = true); [|congruence].
     apply existsb_exists. exists k. split; [exact C | apply N.eqb_refl]. }
   pose proof HS as (A & B & C & E). pose proof (E k) as (R1 & R2 & R3 & R4 & R5).
-  rewrite <- R3, <- A.
+  replace (N.eqb (res_builtAt (get (st_mem t) k)) (st_epoch t)) with (N.eqb (res_builtAt (get (st_mem s) k)) (st_epoch s))
+    by (rewrite R3, A; reflexivity).
   destruct (N.eqb (res_builtAt (get (st_mem s) k)) (st_epoch s)) eqn:Ed; [exact HS|].
   assert (Hnd : ~ done s k) by (now apply N.eqb_neq in Ed).
   set (r0 := get (st_mem s) k) in *. set (q0 := get (st_mem t) k) in *.
@@ -211,21 +212,21 @@ Proof.
   assert (Hnd1 : ~ done (set_mem s k r) k) by (unfold done; cbn [set_mem st_mem st_epoch]; now rewrite get_update_same).
   set (s1 := set_mem s k r) in *. set (t1 := set_mem t k q) in *.
   assert (Sfe : forall e, safe (emit s1 e)) by (intros e; apply (safe_same_mem s1); [reflexivity | reflexivity | exact Sf1]).
-  change (res_builtAt q) with (res_builtAt q0). change (res_builtAt r) with (res_builtAt r0). rewrite <- R3.
-  destruct (N.eqb (res_builtAt r0) 0).
+  replace (res_builtAt q) with (res_builtAt r) by exact R3.
+  destruct (N.eqb (res_builtAt r) 0).
   { apply run_sim; [now apply sim_emit | apply Sfe | exact Rq]. }
   rewrite <- (sim_flagged s1 t1 k HS1).
   destruct (flagged s1 k).
   { apply run_sim; [now apply sim_emit | apply Sfe | exact Rq]. }
-  change (res_sig q) with (res_sig q0). change (res_sig r) with (res_sig r0). rewrite <- R2.
-  destruct (negb (N.eqb (r_sig (rules k)) (res_sig r0))).
+  replace (res_sig q) with (res_sig r) by exact R2.
+  destruct (negb (N.eqb (r_sig (rules k)) (res_sig r))).
   { apply run_sim; [now apply sim_emit | apply Sfe | exact Rq]. }
   assert (Ev : valid rules env k q = valid rules env k r) by (unfold valid, r, q; cbn [res_value]; now rewrite R1).
   rewrite Ev.
   destruct (negb (valid rules env k r)).
   { apply run_sim; [now repeat apply sim_emit | apply (safe_same_mem s1); [reflexivity | reflexivity | exact Sf1] | exact Rq]. }
   replace (res_deps q) with (res_deps r) by (unfold r, q; cbn [res_deps]; now rewrite R4).
-  apply scan_sim; try assumption; [now apply sim_emit | apply Sfe |].
+  apply scan_sim; [now apply sim_emit | apply Sfe | exact Rq | exact Hnd1 | exact Hns |].
   intros d Hd HD. eapply Sf; [exact Hnd | exact Hd | exact HD].
 Qed.
 
